@@ -4,6 +4,7 @@ import (
 	"context"
 
 	"github.com/aperturerobotics/util/broadcast"
+	"github.com/aperturerobotics/util/verifhook"
 )
 
 // CallConcurrentlyFunc is a function passed to CallConcurrently.
@@ -52,6 +53,7 @@ func CallConcurrently(ctx context.Context, fns ...CallConcurrentlyFunc) error {
 			go callFunc(fn)
 		}
 	})
+	verifhook.Point(verifhook.CcallSpawned, nil)
 	if started == 0 {
 		return nil
 	}
